@@ -65,6 +65,8 @@ structure Parsed where
 
 inductive Err where
   | badSyntax | unknownLong | unknownShort | needsArg | badValue | help
+  /-- the parser itself panics (Spec/PflagG.lean: `-f=x` for a letter whose delimiter is not `=`) -/
+  | parserPanic
   deriving DecidableEq, Repr, Inhabited
 
 /-- `parseLongArg` on the text after `--`; returns the assignment and whether the next word was taken -/
